@@ -148,6 +148,98 @@ func RunTaggable(policyFile string, seed int64) (*Report, error) {
 			}
 		}
 	}
+	// pointer tags three and four segments deep: only the addressed value takes the tag's operation, every other
+	// string / []byte on the way (siblings in the intermediate maps included) is unclassified, i.e. redacted
+	for _, cls := range []string{"public", "sensitive", "secret"} {
+		for _, op := range []string{"", "redact", "encrypt", "hmac-sha256"} {
+			want := dict[[2]string{cls, op}]
+			for _, deep := range []int{3, 4} {
+				for _, held := range []bool{false, true} {
+					n++
+					rep.Vectors++
+					rep.Runs++
+					c := fmt.Sprintf("CANARY-%d-%d", seed, n)
+					mk := func() TMap {
+						auth := map[string]interface{}{"token": c + "-token", "other": c + "-other"}
+						if deep == 4 {
+							auth = map[string]interface{}{"other": c + "-other", "cred": map[string]interface{}{"token": c + "-token", "kind": c + "-kind"}}
+						}
+						return TMap{"note": c + "-note", "request": map[string]interface{}{"peer": c + "-peer", "body": []byte(c + "-body"), "auth": auth}}
+					}
+					ptr := "/request/auth/token"
+					if deep == 4 {
+						ptr = "/request/auth/cred/token"
+					}
+					curTags = []encrypt.PointerTag{{Pointer: ptr, Classification: encrypt.DataClassification(cls), Filter: encrypt.FilterOperation(op)}}
+					m, snap := mk(), mk()
+					var payload interface{} = m
+					if held {
+						payload = &holder{Attr: m, Name: "public-name"}
+					}
+					vec := map[string]interface{}{"cls": cls, "op": op, "pointer": ptr, "in_struct": held}
+					e := &eventlogger.Event{Type: "t", Payload: payload, Formatted: map[string][]byte{}}
+					out, perr, pan := process(&encrypt.Filter{Wrapper: w}, e)
+					if pan != nil || perr != nil || out == nil {
+						rep.mm(Mismatch{Props: []string{"C09"}, What: "Process on a Taggable payload (deep pointer)", Vector: vec, Expected: "forwarded", Observed: fmt.Sprintf("panic=%v err=%v", pan, perr)})
+						continue
+					}
+					if !reflect.DeepEqual(map[string]interface{}(m), map[string]interface{}(snap)) {
+						rep.mm(Mismatch{Props: []string{"C10"}, What: "Process modified the Taggable map it was given", Vector: vec, Expected: snap, Observed: m})
+					}
+					var om TMap
+					switch p := out.Payload.(type) {
+					case TMap:
+						om = p
+					case *holder:
+						om = p.Attr
+					}
+					leaves := map[string][]byte{}
+					var walk func(prefix string, v interface{})
+					walk = func(prefix string, v interface{}) {
+						switch x := v.(type) {
+						case TMap:
+							walk(prefix, map[string]interface{}(x))
+						case map[string]interface{}:
+							for k, val := range x {
+								walk(prefix+"/"+k, val)
+							}
+						case string:
+							leaves[prefix] = []byte(x)
+						case []byte:
+							leaves[prefix] = x
+						}
+					}
+					walk("", om)
+					expLeaves := map[string]string{"/note": "note", "/request/peer": "peer", "/request/body": "body", "/request/auth/other": "other", ptr: "token"}
+					if deep == 4 {
+						expLeaves["/request/auth/cred/kind"] = "kind"
+					}
+					if len(leaves) != len(expLeaves) {
+						rep.mm(Mismatch{Props: []string{"C10"}, What: "shape of the forwarded map (deep pointer)", Vector: vec, Expected: fmt.Sprint(len(expLeaves), " string leaves"), Observed: fmt.Sprint(len(leaves))})
+					}
+					for path, suffix := range expLeaves {
+						got, ok := leaves[path]
+						if !ok {
+							continue
+						}
+						form := Form(w, string(got), []byte(c+"-"+suffix))
+						exp := "redacted"
+						if path == ptr {
+							exp = want
+						}
+						if form != exp {
+							props := []string{"C09"}
+							if exp == "plain" {
+								props = []string{"C10", "C09"}
+							}
+							rep.mm(Mismatch{Props: props, What: "form of map value " + path + " after the filter (tag " + ptr + ")", Vector: vec, Expected: exp, Observed: form})
+						}
+					}
+					rep.Nontrivial++
+				}
+			}
+		}
+	}
 	// malformed pointer => error, nothing forwarded; pointer to an absent key is skipped
 	for _, tc := range []struct {
 		ptr     string
